@@ -96,8 +96,11 @@ DED = {
          "diagonal / up / left predecessor with T[a,b] = W(T[pred], D[a,b])) and LOWER (T[a,b] <= W(T[q], D[a,b]) for every in-grid "
          "predecessor q); the backward walk S goes from the last pair to the first pair by coupling steps inside the grid and "
          "accumulates exactly T (with termination); lemma coupling-lower-bound (induction over an arbitrary coupling); every lambda of "
-         "_p2weight is proved monotone in its first argument.",
-         "forming D, _fillAF_dtw (links, nb_links, score), symmetry under swapping the tracks and _fdtw (best-first search) are bounded only."),
+         "_p2weight is proved monotone in its first argument; lemma transposed-tables-agree (induction over the cells): two tables "
+         "certified for D and for its transpose agree cell by cell, so the score is the same when the tracks are swapped, given that "
+         "the swapped call's matrix is the transpose.",
+         "forming D (and hence the symmetry of _distance that makes the swapped matrix the transpose), _fillAF_dtw (links, nb_links, "
+         "score) and _fdtw (best-first search) are bounded only."),
 }
 DED.update({
  "C06": ("Network.run_routing_forward: the Dijkstra loop as a REGION contract (cut from the real function on every run) over an abstract "
